@@ -3,7 +3,10 @@
 seeded change from /tmp/wt/<PROP>-out into /verif/seeded/<PROP>-<n>/ with a meta.json."""
 import json,os,re,shutil,sys
 prop,n,det=sys.argv[1],sys.argv[2],sys.argv[3]; needs=' '.join(sys.argv[4:])
-src=f'/tmp/wt/{prop}-out'; dst=f'/verif/seeded/{prop}-{n}'; os.makedirs(dst,exist_ok=True)
+round2 = prop.endswith('b')
+src=f'/tmp/wt/{prop}-out'; dst=f'/verif/seeded/{prop}-{n}'
+if round2: prop_id=prop[:-1]
+else: prop_id=prop; os.makedirs(dst,exist_ok=True)
 pn = n if not n.endswith('o') else '3_optional'
 shutil.copy(f'{src}/patch{pn}.diff',f'{dst}/patch.diff')
 if os.path.exists(f'{src}/patch{pn}.rebased.diff'): shutil.copy(f'{src}/patch{pn}.rebased.diff',f'{dst}/patch.rebased.diff')
@@ -14,7 +17,7 @@ if os.path.exists(log):
     for l in open(log):
         if l.startswith(f'CONFIRM {prop}-out/{n}:'): conf=l.strip()
 notes=open(f'{src}/notes.md').read() if os.path.exists(f'{src}/notes.md') else ''
-meta={"property":prop,"seed":f"{prop}-{n}","origin":"written by a fresh sub-agent that saw only the property text and its own scratch worktree of surrealkv (nothing from /verif)",
+meta={"property":prop_id,"seed":f"{prop}-{n}","origin":"written by a fresh sub-agent that saw only the property text and its own scratch worktree of surrealkv (nothing from /verif)",
  "needs_to_manifest":needs,
  "confirmed_by_me":conf or "see DESIGN.md section 10",
  "confirmation_procedure":"tools/confirm_seed.sh in the sub-agent's scratch worktree: demo passes on the original code, fails with the change; the whole existing suite (cargo test --workspace --no-fail-fast --offline) passes with the change; cargo check with --cfg surrealkv_verif passes",
